@@ -6,7 +6,7 @@ From Memchr Require Import Spec SpecProofs Params
   Mem.Wrappers Mem.WrappersProofs Mem.Iter Mem.IterProofs
   Sub.IsEqual Sub.Pair Sub.PairProofs Sub.RabinKarp Sub.RabinKarpProofs Sub.ShiftOr Sub.ShiftOrProofs
   Sub.PackedPair Sub.PackedPairProofs Sub.Prefilter Sub.TwoWay Sub.TwoWayCert Sub.TwoWayPreProofs
-  Sub.TwoWayFwdProofs Sub.TwoWayRevProofs Sub.Searcher Sub.SearcherProofs.
+  Sub.TwoWayFwdProofs Sub.TwoWayRevProofs Sub.TwoWayTier2 Sub.TwoWayTier2Rev Sub.Searcher Sub.SearcherProofs.
 
 Definition never_panics {A} (m : M A) : Prop := exists v, fst m = Ok v.
 
@@ -123,6 +123,45 @@ Proof.
   - intros Hm. destruct (satq_fst _ _ _ (pw_find_correct isa x i1 i2 w h 0 0 Hw Hm)) as (v & Hv & _). exists v. exact Hv.
 Qed.
 
+Lemma fwd_cert_always : forall ar x, tw_reach_fwd ar x = true -> tw_cert_fwd_of x = true.
+Proof.
+  intros ar x H. apply tw_cert_fwd_all. unfold tw_reach_fwd in H. apply andb_true_iff in H as [H _].
+  apply Nat.leb_le in H. lia.
+Qed.
+Lemma rev_cert_always : forall x, tw_reach_rev x = true -> tw_cert_rev_of x = true.
+Proof. intros x H. apply tw_cert_rev_all. unfold tw_reach_rev in H. apply Nat.leb_le in H. lia. Qed.
+
+(* unconditional forms (Tier 2): every needle *)
+Theorem C14_memmem : forall ar a h x, bytes_ok x -> bytes_ok h ->
+  never_panics (memmem_find ar a h x) /\ never_panics (memmem_rfind ar a h x).
+Proof.
+  intros ar a h x Hx Hh. split.
+  - apply C14_memmem_find; [exact Hx|exact Hh|apply fwd_cert_always].
+  - apply C14_memmem_rfind; [exact Hx|exact Hh|apply rev_cert_always].
+Qed.
+
+Theorem C14_finder_all : forall cfg rank ar a h x, bytes_ok x -> bytes_ok h ->
+  never_panics (f <- finder_new cfg rank ar x;; finder_find ar f a h).
+Proof. intros cfg rank ar a h x Hx Hh. apply C14_finder; [exact Hx|exact Hh|apply fwd_cert_always]. Qed.
+
+Theorem C14_twoway_all : forall x h tw a st, bytes_ok h -> 1 <= length x ->
+  fst (tw_new x) = Ok tw -> never_panics (tw_find tw None a h x st).
+Proof.
+  intros x h tw a st Hh Hn Htw. apply (C14_twoway x h tw a st Hh Htw).
+  pose proof (tw_cert_fwd_all x Hn) as Hc. unfold tw_cert_fwd_of in Hc. rewrite Htw in Hc. exact Hc.
+Qed.
+
+Theorem C14_twoway_rev_all : forall x h tw, 1 <= length x ->
+  fst (tw_new_rev x) = Ok tw -> never_panics (tw_rfind tw h x).
+Proof.
+  intros x h tw Hn Htw. apply (C14_twoway_rev x h tw Htw).
+  pose proof (tw_cert_rev_all x Hn) as Hc. unfold tw_cert_rev_of in Hc. rewrite Htw in Hc. exact Hc.
+Qed.
+
+Print Assumptions C14_memmem.
+Print Assumptions C14_finder_all.
+Print Assumptions C14_twoway_all.
+Print Assumptions C14_twoway_rev_all.
 Print Assumptions C14_prestate_no_overflow.
 Print Assumptions C14_memmem_find.
 Print Assumptions C14_memmem_rfind.
